@@ -27,7 +27,8 @@ class Monitor:
         self.spec = spec
         self.fails = []
         self.prev = {}
-        self.tag = D.opt_tag(spec)
+        self.alive = []          # strong references: a tracker object that is replaced (Powell builds a new inner climber per
+        self.tag = D.opt_tag(spec)   # dimension) must not hand its id() to its successor
 
     def __call__(self, opt):
         hist = {_key(p, s) for p, s in zip(opt.pos_l, opt.score_l)}
@@ -49,6 +50,8 @@ class Monitor:
                     if not self.fails:
                         self.fails.append(dict(signature=f"C19|{self.spec['opt']}|{name.split('[')[0]}:{type(o).__name__}|tracked-{which}-never-evaluated",
                                                detail=f"{name}: tracked {which} pair {k} is not among the evaluated (position, score) pairs", case=self.spec))
+            if not any(o is a for a in self.alive):
+                self.alive.append(o)
             b = o.score_best
             key = (id(o), "best")
             if key in self.prev and _lt(b, self.prev[key]):
@@ -105,8 +108,22 @@ def run_one(spec):
     return out, mon, cap_holder["cap"]
 
 
+FALLBACK_OPTIMIZERS = ["ParticleSwarmOptimizer", "SpiralOptimization", "EvolutionStrategyOptimizer", "GeneticAlgorithmOptimizer",
+                       "DifferentialEvolutionOptimizer", "PatternSearch", "PowellsMethod", "DownhillSimplexOptimizer", "DirectAlgorithm",
+                       "GridSearchOptimizer", "ParallelTemperingOptimizer"]
+
+
 def backend_runs(r, quick):
     specs = bkgen.all_optimizer_scenarios(r, 5 if quick else 40, constraint_p=0.5, nonfinite_p=0.25)
+    # the "check, else ONE fallback kernel" optimizers under non-convex constraints on roomy spaces: the fallback is taken often
+    r2 = C.rng("C19-fallback")
+    for name in FALLBACK_OPTIMIZERS:
+        for _ in range(3 if quick else 20):
+            sp = bkgen.scenario(r2, name, constraint_p=0.0, sizes=[7, 10, 15, 21])
+            if len(sp["space"]) < 2:
+                continue
+            sp["constraint"] = gen.gen_constraint(r2, sp["space"], kinds=("ring", "ring", "mask", "band", "paritysum"))
+            specs.append(sp)
     fails, keys, samples, dis = [], set(), [], []
     n_ops = 0
     unmodelled = set()
